@@ -18,6 +18,8 @@ def run(res):
     for _ in range(n):
         case = sessioncheck.build_case(rnd, n_events=rnd.choice([30, 60]), chatter=0.02, n_conns=rnd.choice([1, 2, 3]))
         cfg = case['config']
+        if rnd.random() < 0.3:
+            cfg[0] = rnd.choice(['wl_display', '.get_registry', 'wl_registry ! .bind'])     # a filter in force must not leak into `list LABEL`
         r = implsession.LogRunner(cfg, [(e[0], e[1]) if len(e) > 1 else (e[0],) for e in case['impl_events']], lambda e: e[1])
         outs, final = r.run()
         conns = list(r.cm.connection_list)
@@ -60,12 +62,17 @@ def run(res):
                 continue
             obj = objs[0]
 
+            def same(o):
+                # the tool gives an UNRESOLVED mention (shown as `@8?`: an id the log never saw created) generation 0, so the label
+                # `8a` of a later first incarnation also selects it (O8, ill-formed / mid-session logs only; core/matcher.py:312)
+                return o is obj or (o is not None and getattr(o, 'generation', 0) is None and o.id == obj.id and obj.generation == 0)
+
             def involves(msg):
-                if msg.obj is obj or msg.destroyed_obj is obj:
+                if same(msg.obj) or same(msg.destroyed_obj):
                     return True
-                return any(getattr(a, 'obj', None) is obj for a in msg.args)
-            want = [m for m in r.ctrl.all_messages if m.obj.connection is conn and involves(m)] if False else \
-                   [m for m in r.ctrl.all_messages if involves(m)]
+                return any(same(getattr(a, 'obj', None)) for a in msg.args)
+            # the label carries the connection name: a message whose own target is unresolved has no connection (O7) and is not selected
+            want = [m for m in r.ctrl.all_messages if getattr(m.obj, 'connection', None) is conn and involves(m)]
             text = '%s: %d%s' % (cname, oid, letters)
             st = len(r.log)
             r.ctrl.process_command('list ' + text)
@@ -93,7 +100,9 @@ def run(res):
             st = len(r.log)
             r.ctrl.process_command('list %s:' % c.name())
             lines = [t for s, t in r.log[st:] if re.match(r'\s*-?\d+\.\d{4} ', t)]
-            want = [m for m in r.ctrl.all_messages if m.obj.connection is c]
+            # a message whose TARGET could not be resolved (an id this log never saw created) carries no connection in the tool:
+            # it is shown with an empty connection column and `X:` does not select it (O7, ill-formed histories only)
+            want = [m for m in r.ctrl.all_messages if getattr(m.obj, 'connection', None) is c]
             res.evaluations += 1
             if len(lines) != len(want):
                 res.disagree('`list X:` does not select exactly the messages of connection X', dict(conn=c.name(), impl_events=case['impl_events']),
